@@ -20,7 +20,304 @@ use crate::rawnet::*;
 use crate::rng::Rng;
 use crate::sim::*;
 
+
+type Ops = Rc<RefCell<Vec<(usize, String, [u8; 20], OpId)>>>;
+
+/// Termination / panic / exactly-once verdicts shared by the random and the sweep scenarios.
+#[allow(clippy::too_many_arguments)]
+fn judge(sim: &Sim, report: &mut Report, caller: HostId, ops: &Ops, last_issue: u64, stall_total: u64, ppm: i64, tau_max: &Rc<RefCell<u64>>, n_peers: usize) {
+    let caller_addr = sim.node_addr(caller);
+    let (n_raw, n_real) = (n_peers, 0usize);
+    // horizon: (A + 2) * (tau_max + 1 s) + 5 s after the last issue, A = addresses the caller contacted
+    let mut deadline;
+    loop {
+        let contacted: BTreeSet<SocketAddrV4> = sim.with_trace(|tr| tr.iter().filter(|d| d.from_host == Some(caller)).map(|d| d.dst).collect());
+        let a = contacted.len() as u64 + n_raw as u64 + n_real as u64;
+        let tau = *tau_max.borrow();
+        let skew = 1.0 + (ppm.unsigned_abs() as f64) / 1_000_000.0 + 0.01;
+        deadline = last_issue + (((a + 2) * (tau + SEC) + 5 * SEC) as f64 * skew) as u64 + stall_total;
+        let ids: Vec<OpId> = ops.borrow().iter().map(|o| o.3).collect();
+        let all = sim.run_ops(&ids, deadline.min(sim.now() + 10 * SEC));
+        if all || sim.now() >= deadline {
+            break;
+        }
+    }
+    report.probe("horizon_s", (deadline - last_issue) / SEC);
+
+    // ---- verdicts
+    if let Some(d) = sim.died(caller) {
+        report.violate("node-died", "caller-actor-panicked", format!("caller died: {d}"));
+    }
+    // value-bearing replies delivered to the caller, per target
+    let valued: BTreeMap<[u8; 20], usize> = sim.with_trace(|tr| {
+        let mut req: BTreeMap<(SocketAddrV4, u32), [u8; 20]> = BTreeMap::new();
+        let mut seen: BTreeSet<(SocketAddrV4, u32)> = BTreeSet::new();
+        let mut out: BTreeMap<[u8; 20], usize> = BTreeMap::new();
+        for d in tr.iter() {
+            let Some(k) = Krpc::parse(&d.bytes) else { continue };
+            if d.from_host == Some(caller) && k.is_query() {
+                if let Some(t) = k.target() {
+                    req.insert((d.dst, k.tid_u32().unwrap_or(0)), t);
+                }
+            }
+            if d.dst == caller_addr && d.fate == Fate::Delivered && k.is_response() {
+                let has_value = k.body.get("v").is_some() || k.body.get("values").is_some() || k.body.get("peers").is_some();
+                if has_value {
+                    if let Some(t) = req.get(&(d.src, k.tid_u32().unwrap_or(0))) {
+                        if seen.insert((d.src, k.tid_u32().unwrap_or(0))) {
+                            *out.entry(*t).or_insert(0) += 1;
+                        }
+                    }
+                }
+            }
+        }
+        out
+    });
+    let local_puts: BTreeMap<[u8; 20], usize> = {
+        let mut m = BTreeMap::new();
+        for (_, label, t, _) in ops.borrow().iter() {
+            if label == "put_mutable" || label == "announce_signed_peer" {
+                *m.entry(*t).or_insert(0) += 1;
+            }
+        }
+        m
+    };
+    for (i, label, target, id) in ops.borrow().iter() {
+        let (done, panicked, issued) = sim.with_op(*id, |o| (o.done(), o.panicked.clone(), o.issued_at));
+        if let Some(p) = panicked {
+            report.violate("api-panic", &format!("api-call-panicked:{label}"), format!("call[{i}] {label} panicked: {p}"));
+            continue;
+        }
+        if !done {
+            // which other calls share the target (the interesting part of a hang report)
+            let sharing: Vec<String> = ops.borrow().iter().filter(|o| o.2 == *target && o.0 != *i).map(|o| o.1.clone()).collect();
+            let key = if !sharing.is_empty() && label.starts_with("put") || label.starts_with("announce") && !sharing.is_empty() {
+                format!("hang:{label}-overlapping-{}", sharing.first().cloned().unwrap_or_default())
+            } else {
+                format!("hang:{label}")
+            };
+            report.violate("hang", &key, format!("call[{i}] {label}(target {}) issued at t={:.3}s has not completed {:.1}s later (horizon {:.1}s after the last issue); calls on the same target: {sharing:?}", hex8(target), issued as f64 / SEC as f64, (sim.now() - issued) as f64 / SEC as f64, (deadline - last_issue) as f64 / SEC as f64));
+            continue;
+        }
+        let items = sim.with_op(*id, |o| match &o.outcome {
+            Some(Outcome::Mutable(v)) => Some(v.len()),
+            Some(Outcome::Peers(v)) => Some(v.len()),
+            Some(Outcome::SignedPeers(v)) => Some(v.len()),
+            _ => None,
+        });
+        if let Some(n) = items {
+            let cap = valued.get(target).copied().unwrap_or(0) + local_puts.get(target).copied().unwrap_or(0);
+            if n > cap {
+                report.violate("exactly-once", "stream-yielded-more-items-than-replies", format!("call[{i}] {label} yielded {n} items but only {cap} distinct value-bearing replies (plus local in-flight puts) exist for its target"));
+            }
+            report.probe("stream_items", n as u64);
+        }
+    }
+}
+
+#[derive(Clone, Debug)]
+enum SweepFault {
+    Dgram(SocketAddrV4, SocketAddrV4, u64, Explicit),
+    /// scripted peer goes silent (crashes) from this instant on
+    Crash(usize, u64),
+}
+
+/// One small fault-free scenario, fully determined by `seed`; returns the caller-side datagram list.
+fn sweep_execute(seed: u64, faults: &[SweepFault], report: &mut Report, plan: &mut Vec<String>) -> Vec<(SocketAddrV4, SocketAddrV4, u64, u64)> {
+    let mut rng = Rng::new(seed);
+    let net = NetCfg {
+        latency_min_us: 500,
+        latency_max_us: rng.range(2_000, 80_000),
+        ..NetCfg::default()
+    };
+    let sim = Sim::new(seed, net);
+    sim.set_snap_mode(SnapMode::Every);
+    let rawnet = RawNet::new();
+    let n_raw = rng.usize(2, 5);
+    let value = b"sweep value".to_vec();
+    let key = krpc::signing_key(rng.bytes(32).try_into().unwrap());
+    let item = Item::signed(&key, None, 3, b"stored");
+    let ih = rng.id();
+    let mut addrs = vec![];
+    for i in 0..n_raw {
+        let addr = SocketAddrV4::new(priv_ip(70 + i), 6881);
+        let mut p = Peer::new(rng.id(), addr);
+        p.k = 20;
+        p.delay = rng.range(0, 120) * MS;
+        if i == 0 {
+            p.immutable.insert(krpc::immutable_target(&value), value.clone());
+            p.mutable.insert(item.target(), item.clone());
+            p.peers.insert(ih, vec![SocketAddrV4::new(priv_ip(900), 9)]);
+        }
+        rawnet.add(&sim, p);
+        addrs.push(addr);
+    }
+    for i in 0..n_raw {
+        rawnet.with_peer(i, |p| p.knows = (0..n_raw).collect());
+    }
+    let crashes: Vec<(usize, u64)> = faults.iter().filter_map(|f| if let SweepFault::Crash(p, t) = f { Some((*p, *t)) } else { None }).collect();
+    if !crashes.is_empty() {
+        rawnet.set_hook(Box::new(move |rctx, _sh, idx, _from, _msg: &Krpc| {
+            if crashes.iter().any(|(p, t)| *p == idx && rctx.now >= *t) {
+                HookResult::Handled
+            } else {
+                HookResult::Default
+            }
+        }));
+    }
+    for f in faults {
+        if let SweepFault::Dgram(a, b, k, e) = f {
+            sim.set_explicit(*a, *b, *k, e.clone());
+        }
+    }
+    let mut cspec = NodeSpec::new(priv_ip(1), 6881);
+    cspec.server_mode = rng.chance(1, 3);
+    cspec.bootstrap = addrs.iter().map(|a| a.to_string()).collect();
+    let tau_max: Rc<RefCell<u64>> = Rc::new(RefCell::new(500 * MS));
+    let caller_cell: Rc<RefCell<Option<HostId>>> = Default::default();
+    {
+        let tau = tau_max.clone();
+        let cc = caller_cell.clone();
+        sim.set_observer(Box::new(move |h, _now, s| {
+            if Some(h) == *cc.borrow() {
+                let mut t = tau.borrow_mut();
+                *t = (*t).max(s.socket.request_timeout_ns);
+            }
+        }));
+    }
+    let caller = sim.add_node(cspec);
+    *caller_cell.borrow_mut() = Some(caller);
+    sim.run_for(2 * SEC);
+    let ops: Ops = Default::default();
+    let n_calls = rng.usize(1, 3);
+    let t_first = sim.now();
+    let mut last_issue = t_first;
+    for i in 0..n_calls {
+        let kind = rng.below(8);
+        let at = t_first + rng.range(0, 800) * MS;
+        last_issue = last_issue.max(at);
+        let (label, target): (&str, [u8; 20]) = match kind {
+            0 => ("put_immutable", krpc::immutable_target(&value)),
+            1 => ("put_mutable", item.target()),
+            2 => ("announce_peer", ih),
+            3 => ("get_immutable", krpc::immutable_target(&value)),
+            4 => ("get_mutable", item.target()),
+            5 => ("get_peers", ih),
+            6 => ("find_node", krpc::immutable_target(&value)),
+            _ => ("get_closest_nodes", ih),
+        };
+        plan.push(format!("call[{i}] t={:.3}s {label}", at as f64 / SEC as f64));
+        let ops2 = ops.clone();
+        let (value, key) = (value.clone(), key.clone());
+        sim.at(at, move |sim| {
+            let pk = key.verifying_key().to_bytes();
+            let op = match kind {
+                0 => sim.put_immutable(caller, value),
+                1 => sim.put_mutable(caller, dht::MutableItem::new(&key, b"newer", 4, None), None),
+                2 => sim.announce_peer(caller, ih, Some(77)),
+                3 => sim.get_immutable(caller, krpc::immutable_target(&value)),
+                4 => sim.get_mutable(caller, pk, None, None),
+                5 => sim.get_peers(caller, ih),
+                6 => sim.find_node(caller, krpc::immutable_target(&value)),
+                _ => sim.get_closest_nodes(caller, ih),
+            };
+            ops2.borrow_mut().push((i, label.to_string(), target, op));
+        });
+    }
+    sim.run_until(last_issue + MS);
+    judge(&sim, report, caller, &ops, last_issue, 0, 0, &tau_max, n_raw);
+    let caller_addr = sim.node_addr(caller);
+    let list: Vec<(SocketAddrV4, SocketAddrV4, u64, u64)> = sim.with_trace(|tr| tr.iter().filter(|d| d.dup_of.is_none() && d.t_send >= t_first && (d.src == caller_addr || d.dst == caller_addr)).map(|d| (d.src, d.dst, d.k, d.t_send)).collect());
+    report.absorb_stats(&sim.stats());
+    report.det_hash = crate::rng::key(report.det_hash, &[sim.fingerprint()]);
+    report.fingerprint = sim.order_fingerprint();
+    report.sim_time_ns += sim.now();
+    if report.violation.is_some() && report.trace_tail.is_empty() {
+        report.trace_tail = trace_tail(&sim, 40);
+    }
+    sim.teardown();
+    list
+}
+
+/// Enumerated single-fault / peer-crash sweep over a small scenario (one element per run).
+fn sweep(ctx: &RunCtx, elem: u64) -> Report {
+    let group = elem / 256;
+    let within = (elem % 256) as usize;
+    let seed = crate::rng::key(ctx.base, &[crate::rng::tag("c06-sweep"), group]);
+    let mut plan = vec![format!("sweep group={group} element={within} scenario_seed={seed}")];
+    // baseline (fault-free): which datagrams exist
+    let mut base_report = Report::default();
+    let list = sweep_execute(seed, &[], &mut base_report, &mut vec![]);
+    if let Some(v) = base_report.violation {
+        let mut r = Report::default();
+        r.violate(&v.class, &v.key, format!("in the fault-free baseline of the sweep: {}", v.detail));
+        r.plan_dump = Some(plan.join("\n"));
+        r.nontrivial = true;
+        r.det_hash = base_report.det_hash;
+        return r;
+    }
+    let n = list.len().max(1);
+    let peers: Vec<SocketAddrV4> = {
+        let mut p: Vec<SocketAddrV4> = list.iter().map(|d| d.1).chain(list.iter().map(|d| d.0)).collect();
+        p.sort();
+        p.dedup();
+        p
+    };
+    // element order: each datagram x {drop, duplicate, delay past the timeout}, then each peer x
+    // each datagram instant (crash), then hash-chosen pairs
+    let singles = 3 * n;
+    let n_peers = 5usize;
+    let crashes = n_peers * n;
+    let mut faults: Vec<SweepFault> = vec![];
+    let dgram_fault = |j: usize| -> SweepFault {
+        let d = list[(j / 3) % n];
+        let e = match j % 3 {
+            0 => Explicit::Drop,
+            1 => Explicit::Dup(40 * MS),
+            _ => Explicit::Delay(2 * SEC),
+        };
+        SweepFault::Dgram(d.0, d.1, d.2, e)
+    };
+    if within < singles {
+        faults.push(dgram_fault(within));
+    } else if within < singles + crashes {
+        let c = within - singles;
+        faults.push(SweepFault::Crash(c / n, list[c % n].3));
+    } else {
+        let h = crate::rng::key(seed, &[within as u64]);
+        faults.push(dgram_fault((h % singles as u64) as usize));
+        faults.push(dgram_fault(((h >> 20) % singles as u64) as usize));
+    }
+    plan.push(format!("baseline: {n} caller-side datagrams, peers {peers:?}"));
+    plan.push(format!("faults: {faults:?}"));
+    let mut report = Report::default();
+    report.det_hash = base_report.det_hash;
+    let _ = sweep_execute(seed, &faults, &mut report, &mut plan);
+    report.nontrivial = true;
+    report.probe("sweep_runs", 1);
+    match &faults[0] {
+        SweepFault::Dgram(_, _, _, Explicit::Drop) => report.probe("sweep_single_drop", 1),
+        SweepFault::Dgram(_, _, _, Explicit::Dup(_)) => report.probe("sweep_single_dup", 1),
+        SweepFault::Dgram(_, _, _, Explicit::Delay(_)) => report.probe("sweep_single_delay", 1),
+        SweepFault::Crash(..) => report.probe("sweep_peer_crash", 1),
+    }
+    if faults.len() > 1 {
+        report.probe("sweep_pair", 1);
+    }
+    report.fingerprint = crate::rng::key(report.fingerprint, &[group, within as u64]);
+    report.sample = Some(json!({"sweep": plan}));
+    report.plan_dump = Some(plan.join("\n"));
+    report
+}
+
 fn run(ctx: &RunCtx) -> Report {
+    let step = match ctx.tier {
+        Tier::Quick => 5,
+        Tier::Thorough => 2,
+    };
+    if ctx.index % step == step - 1 {
+        return sweep(ctx, ctx.index / step);
+    }
     let mut report = Report::default();
     let mut rng = Rng::new(ctx.seed);
     let faulty = rng.chance(4, 5);
@@ -208,91 +505,7 @@ fn run(ctx: &RunCtx) -> Report {
     }
     sim.run_until(last_issue + MS);
 
-    // horizon: (A + 2) * (tau_max + 1 s) + 5 s after the last issue, A = addresses the caller contacted
-    let mut deadline;
-    loop {
-        let contacted: BTreeSet<SocketAddrV4> = sim.with_trace(|tr| tr.iter().filter(|d| d.from_host == Some(caller)).map(|d| d.dst).collect());
-        let a = contacted.len() as u64 + n_raw as u64 + n_real as u64;
-        let tau = *tau_max.borrow();
-        let skew = 1.0 + (ppm.unsigned_abs() as f64) / 1_000_000.0 + 0.01;
-        deadline = last_issue + (((a + 2) * (tau + SEC) + 5 * SEC) as f64 * skew) as u64 + stall_total;
-        let ids: Vec<OpId> = ops.borrow().iter().map(|o| o.3).collect();
-        let all = sim.run_ops(&ids, deadline.min(sim.now() + 10 * SEC));
-        if all || sim.now() >= deadline {
-            break;
-        }
-    }
-    report.probe("horizon_s", (deadline - last_issue) / SEC);
-
-    // ---- verdicts
-    if let Some(d) = sim.died(caller) {
-        report.violate("node-died", "caller-actor-panicked", format!("caller died: {d}"));
-    }
-    // value-bearing replies delivered to the caller, per target
-    let valued: BTreeMap<[u8; 20], usize> = sim.with_trace(|tr| {
-        let mut req: BTreeMap<(SocketAddrV4, u32), [u8; 20]> = BTreeMap::new();
-        let mut seen: BTreeSet<(SocketAddrV4, u32)> = BTreeSet::new();
-        let mut out: BTreeMap<[u8; 20], usize> = BTreeMap::new();
-        for d in tr.iter() {
-            let Some(k) = Krpc::parse(&d.bytes) else { continue };
-            if d.from_host == Some(caller) && k.is_query() {
-                if let Some(t) = k.target() {
-                    req.insert((d.dst, k.tid_u32().unwrap_or(0)), t);
-                }
-            }
-            if d.dst == caller_addr && d.fate == Fate::Delivered && k.is_response() {
-                let has_value = k.body.get("v").is_some() || k.body.get("values").is_some() || k.body.get("peers").is_some();
-                if has_value {
-                    if let Some(t) = req.get(&(d.src, k.tid_u32().unwrap_or(0))) {
-                        if seen.insert((d.src, k.tid_u32().unwrap_or(0))) {
-                            *out.entry(*t).or_insert(0) += 1;
-                        }
-                    }
-                }
-            }
-        }
-        out
-    });
-    let local_puts: BTreeMap<[u8; 20], usize> = {
-        let mut m = BTreeMap::new();
-        for (_, label, t, _) in ops.borrow().iter() {
-            if label == "put_mutable" || label == "announce_signed_peer" {
-                *m.entry(*t).or_insert(0) += 1;
-            }
-        }
-        m
-    };
-    for (i, label, target, id) in ops.borrow().iter() {
-        let (done, panicked, issued) = sim.with_op(*id, |o| (o.done(), o.panicked.clone(), o.issued_at));
-        if let Some(p) = panicked {
-            report.violate("api-panic", &format!("api-call-panicked:{label}"), format!("call[{i}] {label} panicked: {p}"));
-            continue;
-        }
-        if !done {
-            // which other calls share the target (the interesting part of a hang report)
-            let sharing: Vec<String> = ops.borrow().iter().filter(|o| o.2 == *target && o.0 != *i).map(|o| o.1.clone()).collect();
-            let key = if !sharing.is_empty() && label.starts_with("put") || label.starts_with("announce") && !sharing.is_empty() {
-                format!("hang:{label}-overlapping-{}", sharing.first().cloned().unwrap_or_default())
-            } else {
-                format!("hang:{label}")
-            };
-            report.violate("hang", &key, format!("call[{i}] {label}(target {}) issued at t={:.3}s has not completed {:.1}s later (horizon {:.1}s after the last issue); calls on the same target: {sharing:?}", hex8(target), issued as f64 / SEC as f64, (sim.now() - issued) as f64 / SEC as f64, (deadline - last_issue) as f64 / SEC as f64));
-            continue;
-        }
-        let items = sim.with_op(*id, |o| match &o.outcome {
-            Some(Outcome::Mutable(v)) => Some(v.len()),
-            Some(Outcome::Peers(v)) => Some(v.len()),
-            Some(Outcome::SignedPeers(v)) => Some(v.len()),
-            _ => None,
-        });
-        if let Some(n) = items {
-            let cap = valued.get(target).copied().unwrap_or(0) + local_puts.get(target).copied().unwrap_or(0);
-            if n > cap {
-                report.violate("exactly-once", "stream-yielded-more-items-than-replies", format!("call[{i}] {label} yielded {n} items but only {cap} distinct value-bearing replies (plus local in-flight puts) exist for its target"));
-            }
-            report.probe("stream_items", n as u64);
-        }
-    }
+    judge(&sim, &mut report, caller, &ops, last_issue, stall_total, ppm, &tau_max, n_raw + n_real);
     report.nontrivial = !ops.borrow().is_empty();
     report.probe("calls", ops.borrow().len() as u64);
     if force_overlap {
